@@ -25,6 +25,7 @@ import itertools
 import operator
 import posixpath
 import re
+import threading
 from pathlib import PurePosixPath
 
 from core.loader import ClassInfo, FuncInfo, ModuleInfo, Repo
@@ -105,6 +106,100 @@ class Bound:
         self.fi = fi
         self.obj = obj
         self.exact = exact  # reached through super(): no virtual dispatch
+
+
+class _GenClose(BaseException):
+    """Raised inside a suspended generator body to unwind it."""
+
+
+class EvalGen:
+    """A generator of the analysed code: its body runs in a thread of its own that is handed control for exactly one step at a time
+    (strict hand-over: never two threads at once), so the body is evaluated lazily and interleaved with its consumer as in Python."""
+
+    def __init__(self, ev: "Evaluator", fi: FuncInfo, body) -> None:
+        self.ev = ev
+        self.fi = fi
+        self._body = body
+        self._to_gen = threading.Semaphore(0)
+        self._to_con = threading.Semaphore(0)
+        self._thread: threading.Thread | None = None
+        self._done = False
+        self._item: object = None
+        self._exc: BaseException | None = None
+        self._own: list = []  # evaluator frames of the suspended body
+        self._base = 0
+        self._closing = False
+        ev._gens.append(self)
+
+    def __repr__(self) -> str:
+        return f"<generator {self.fi.qualname}>"
+
+    def __iter__(self) -> "EvalGen":
+        return self
+
+    def _target(self) -> None:
+        try:
+            self._body()
+        except (_Return, _GenClose):
+            pass
+        except BaseException as e:  # noqa: BLE001 - handed to the consumer
+            self._exc = e
+        self._done = True
+        self._to_con.release()
+
+    def __next__(self) -> object:
+        if self._done:
+            raise StopIteration
+        ev = self.ev
+        saved_stack, saved_gen = ev.stack, ev._cur_gen
+        ev.stack = [*saved_stack, *self._own]
+        self._base = len(saved_stack)
+        ev._cur_gen = self
+        try:
+            if self._thread is None:
+                if threading.active_count() > 300:
+                    raise Unknown("too many suspended generators")
+                self._thread = threading.Thread(target=self._target, daemon=True)
+                self._thread.start()
+            else:
+                self._to_gen.release()
+            self._to_con.acquire()
+        finally:
+            ev.stack, ev._cur_gen = saved_stack, saved_gen
+        if self._exc is not None:
+            e, self._exc = self._exc, None
+            raise e
+        if self._done:
+            raise StopIteration
+        return self._item
+
+    def suspend(self, value: object) -> None:
+        """Called in the body's thread at a `yield`."""
+        ev = self.ev
+        self._item = value
+        self._own = ev.stack[self._base:]
+        self._to_con.release()
+        self._to_gen.acquire()
+        if self._closing:
+            raise _GenClose()
+
+    def close(self) -> None:
+        """Unwinds a suspended body (its thread ends); a generator that never started or has finished needs nothing."""
+        if self._done or self._thread is None:
+            return
+        ev = self.ev
+        saved_stack, saved_gen = ev.stack, ev._cur_gen
+        ev.stack = [*saved_stack, *self._own]
+        self._base = len(saved_stack)
+        ev._cur_gen = self
+        self._closing = True
+        try:
+            self._to_gen.release()
+            self._to_con.acquire()
+        finally:
+            ev.stack, ev._cur_gen = saved_stack, saved_gen
+        self._exc = None
+        self._done = True
 
 
 class SuperRef:
@@ -265,6 +360,9 @@ class Evaluator:
         self.stmt_hooks: dict[int, object] = {}  # id(stmt) -> callback(frame)
         self.substitute: dict[str, FuncInfo] = {}  # fq -> function evaluated in its place (an inline view of it)
         self.notes: list[str] = []  # why something became POISON (diagnostics)
+        self._cur_gen: EvalGen | None = None  # the generator whose body is being evaluated (None: ordinary code)
+        self._gens: list[EvalGen] = []
+        self.created: list[Obj] = []  # every object of a class of the analysed code that was constructed (rules may look them up by class)
         self.uncertain_exits = 0  # undetermined branches that may have left a function / loop (what ran afterwards is not certain)
 
     # ------------------------------------------------------------------ helpers
@@ -336,6 +434,15 @@ class Evaluator:
                 env.vars[p] = self._guarded(defaults[p], Frame(fi, fi.module, Env({}, closure_env)))
             else:
                 raise Raised("TypeError")
+        if not isinstance(node, ast.Lambda) and self._is_generator(fi):
+            def body(fi=fi, node=node, mod_frame=mod_frame) -> None:
+                self.stack.append(mod_frame)
+                try:
+                    self.block(node.body, mod_frame)
+                finally:
+                    self.stack.pop()
+
+            return EvalGen(self, fi, body)
         self.stack.append(mod_frame)
         try:
             if isinstance(node, ast.Lambda):
@@ -357,6 +464,32 @@ class Evaluator:
             raise Unknown("evaluation too deeply nested") from None
         finally:
             self.stack.pop()
+            if not self.stack and self._gens and self._cur_gen is None:
+                self.close_generators()
+
+    def close_generators(self) -> None:
+        """Ends the threads of generators that were left suspended (call when an evaluation is over)."""
+        if self._cur_gen is not None or self.stack:
+            return
+        gens, self._gens = self._gens, []
+        for g in reversed(gens):
+            if g._done:
+                continue
+            if g._thread is None:
+                self._gens.append(g)  # not started: may still be handed to the caller
+                continue
+            try:
+                g.close()
+            except BaseException:  # noqa: BLE001
+                pass
+
+    def _is_generator(self, fi: FuncInfo) -> bool:
+        cache = self.__dict__.setdefault("_gen_cache", {})
+        if fi.fq not in cache:
+            from core.loader import own_nodes
+
+            cache[fi.fq] = any(isinstance(n, (ast.Yield, ast.YieldFrom)) for n in own_nodes(fi.node))
+        return cache[fi.fq]
 
     def _is_top(self, fr: Frame) -> bool:
         return bool(self.stack) and self.stack[0] is fr
@@ -551,11 +684,168 @@ class Evaluator:
                     self._bind_name(al.asname or al.name.split(".")[0], LibRef(al.name if al.asname else al.name.split(".")[0]), fr)
                 else:
                     self._bind_name(al.asname or al.name, self._from_dotted(f"{s.module}.{al.name}"), fr)
+        elif isinstance(s, ast.Match):
+            subject = self._guarded(s.subject, fr)
+            if subject is POISON:
+                self._undetermined_branch([st for c in s.cases for st in c.body], fr)
+                return
+            for case in s.cases:
+                binds: dict[str, object] = {}
+                m = self._match(case.pattern, subject, fr, binds)
+                if m is POISON:
+                    self._undetermined_branch([st for c in s.cases for st in c.body], fr)
+                    return
+                if not m:
+                    continue
+                for k, v in binds.items():
+                    self._bind_name(k, v, fr)
+                if case.guard is not None:
+                    g = self._truth(self._guarded(case.guard, fr))
+                    if g is POISON:
+                        self._undetermined_branch([st for c in s.cases for st in c.body], fr)
+                        return
+                    if not g:
+                        continue
+                self.block(case.body, fr)
+                return
+        elif isinstance(s, ast.Delete):
+            for t in s.targets:
+                for x in (t.elts if isinstance(t, (ast.Tuple, ast.List)) else [t]):
+                    if isinstance(x, ast.Name):
+                        if x.id not in fr.env.vars:
+                            raise Raised("NameError")
+                        del fr.env.vars[x.id]
+                    elif isinstance(x, ast.Attribute):
+                        o = self.ev(x.value, fr)
+                        if o is POISON:
+                            continue
+                        if not isinstance(o, Obj):
+                            raise Unknown(f"del of an attribute of {type(o).__name__}")
+                        if x.attr not in o.attrs:
+                            raise Raised("AttributeError")
+                        del o.attrs[x.attr]
+                    elif isinstance(x, ast.Subscript) and not isinstance(x.slice, ast.Slice):
+                        o, k = self.ev(x.value, fr), self.ev(x.slice, fr)
+                        if o is POISON or k is POISON or _deep_poison(k):
+                            raise Unknown("del of an undetermined item")
+                        if not isinstance(o, (dict, list)):
+                            raise Unknown(f"del of an item of {type(o).__name__}")
+                        try:
+                            del o[k]
+                        except Exception as ex:  # noqa: BLE001
+                            raise Raised(type(ex).__name__, ex) from None
+                    else:
+                        raise Unknown("del target")
         else:
             if not self.tolerant:
                 raise Unknown(f"statement {type(s).__name__}")
             self._note(f"statement {type(s).__name__} not evaluated")
             self._undetermined_branch([s], fr)
+
+    def _match(self, p: ast.pattern, v: object, fr: Frame, binds: dict):
+        """Does the value match the pattern (True / False / POISON)?  Captures go to `binds`."""
+        if v is POISON:
+            return POISON
+        if isinstance(p, ast.MatchAs):
+            if p.pattern is not None:
+                m = self._match(p.pattern, v, fr, binds)
+                if m is not True:
+                    return m
+            if p.name is not None:
+                binds[p.name] = v
+            return True
+        if isinstance(p, ast.MatchOr):
+            for alt in p.patterns:
+                b: dict = {}
+                m = self._match(alt, v, fr, b)
+                if m is POISON:
+                    return POISON
+                if m:
+                    binds.update(b)
+                    return True
+            return False
+        if isinstance(p, ast.MatchValue):
+            return self._compare(ast.Eq, v, self.ev(p.value, fr))
+        if isinstance(p, ast.MatchSingleton):
+            return v is p.value
+        if isinstance(p, ast.MatchSequence):
+            if isinstance(v, (str, bytes, dict, set, frozenset)) or not (isinstance(v, (list, tuple)) or (isinstance(v, Obj) and self.is_namedtuple(v.cls))):
+                if isinstance(v, (Obj, NativeObj)) and not (isinstance(v, Obj) and self.is_namedtuple(v.cls)):
+                    if isinstance(v, NativeObj):
+                        raise Unknown("sequence pattern on a model object")
+                return False
+            items = list(self._iterate(v))
+            stars = [i for i, x in enumerate(p.patterns) if isinstance(x, ast.MatchStar)]
+            if not stars:
+                if len(items) != len(p.patterns):
+                    return False
+                pairs = list(zip(p.patterns, items))
+            else:
+                k = stars[0]
+                after = len(p.patterns) - k - 1
+                if len(items) < k + after:
+                    return False
+                pairs = list(zip(p.patterns[:k], items[:k])) + list(zip(p.patterns[k + 1:], items[len(items) - after:]))
+                if p.patterns[k].name is not None:
+                    binds[p.patterns[k].name] = items[k: len(items) - after]
+            for sub, item in pairs:
+                m = self._match(sub, item, fr, binds)
+                if m is not True:
+                    return m
+            return True
+        if isinstance(p, ast.MatchClass):
+            c = self.ev(p.cls, fr)
+            if c is POISON:
+                return POISON
+            inst = self._lib_call("builtins.isinstance", [v, c], {})
+            if inst is POISON or not inst:
+                return inst
+            if p.patterns:
+                if not (isinstance(v, Obj) and isinstance(c, ClassRef)):
+                    if len(p.patterns) == 1 and isinstance(c, type) and c in (str, int, float, bool, bytes, list, tuple, dict, set, frozenset):
+                        return self._match(p.patterns[0], v, fr, binds)
+                    raise Unknown("positional class pattern on a library class")
+                args = None
+                for k_ in self.repo.mro(v.cls):
+                    if "__match_args__" in k_.class_attrs:
+                        args = self._guarded(k_.class_attrs["__match_args__"], Frame(None, k_.module, Env({})))
+                        break
+                if args is None:
+                    if not (self.is_namedtuple(v.cls) or any(k_.is_dataclass for k_ in self.repo.mro(v.cls))):
+                        raise Raised("TypeError")
+                    args = [a for k_ in reversed(self.repo.mro(v.cls)) for a in k_.ann_attrs]
+                if args is POISON or len(p.patterns) > len(args):
+                    raise Raised("TypeError")
+                for sub, name in zip(p.patterns, args):
+                    m = self._match(sub, self.getattr(v, name, fr), fr, binds)
+                    if m is not True:
+                        return m
+            for name, sub in zip(p.kwd_attrs, p.kwd_patterns):
+                try:
+                    av = self.getattr(v, name, fr)
+                except Unknown:
+                    return False
+                m = self._match(sub, av, fr, binds)
+                if m is not True:
+                    return m
+            return True
+        if isinstance(p, ast.MatchMapping):
+            if not isinstance(v, dict):
+                return False
+            for k_, sub in zip(p.keys, p.patterns):
+                key = self.ev(k_, fr)
+                if key is POISON:
+                    return POISON
+                if key not in v:
+                    return False
+                m = self._match(sub, v[key], fr, binds)
+                if m is not True:
+                    return m
+            if p.rest is not None:
+                keys = [self.ev(k_, fr) for k_ in p.keys]
+                binds[p.rest] = {k_: x for k_, x in v.items() if k_ not in keys}
+            return True
+        raise Unknown(f"pattern {type(p).__name__}")
 
     def _undetermined_branch(self, stmts: list[ast.stmt], fr: Frame, own_loop: bool = False) -> None:
         """`stmts` may or may not be executed: what they bind is undetermined; jumps out of them make what follows uncertain."""
@@ -694,9 +984,10 @@ class Evaluator:
         except Exception as e:  # noqa: BLE001
             raise Raised(type(e).__name__, e) from None
 
-    @staticmethod
-    def _iterable(v: object) -> bool:
+    def _iterable(self, v: object) -> bool:
         if isinstance(v, NativeObj) and "__iter__" in v.methods:
+            return True
+        if isinstance(v, Obj) and self.is_namedtuple(v.cls):
             return True
         if isinstance(v, (Obj, Fn, Bound, Closure, Partial, ClassRef, LibRef, NativeObj, _Poison)):
             return False
@@ -710,6 +1001,8 @@ class Evaluator:
         n = 0
         if isinstance(v, NativeObj) and "__iter__" in v.methods:
             v = list(v.methods["__iter__"]())
+        if isinstance(v, Obj) and self.is_namedtuple(v.cls):
+            v = self.record_fields(v)
         for x in v:  # type: ignore[attr-defined]
             n += 1
             if n > 20000:
@@ -824,6 +1117,13 @@ class Evaluator:
                 m = self.repo.lookup_method(o.cls, "__getitem__")
                 if m is not None:
                     return self.call_function(m, [k], {}, o)
+                rec = self.record_fields(o)
+                if rec is not None:
+                    try:
+                        r = rec[k]  # type: ignore[index]
+                    except Exception as ex:  # noqa: BLE001
+                        raise Raised(type(ex).__name__, ex) from None
+                    return tuple(r) if isinstance(k, slice) else r
             if isinstance(o, NativeObj) and "__getitem__" in o.methods:
                 return o.methods["__getitem__"](k)
             if type(o).__name__ == "_PathParents":
@@ -911,6 +1211,23 @@ class Evaluator:
             if nf is None:
                 raise Unknown("lambda without FuncInfo")
             return Closure(e, nf, fr.env)
+        if isinstance(e, (ast.Yield, ast.YieldFrom)):
+            g = self._cur_gen
+            if g is None:
+                raise Unknown("yield outside a generator that is being iterated")
+            if fr.uncertain or self.uncertain:
+                raise Unknown("yield on a path whose conditions cannot be evaluated")
+            if isinstance(e, ast.Yield):
+                g.suspend(self.ev(e.value, fr) if e.value is not None else None)
+                return None
+            src = self.ev(e.value, fr)
+            if src is POISON:
+                raise Unknown("yield from an undetermined value")
+            if not self._iterable(src):
+                raise Raised("TypeError")
+            for x in self._iterate(src):
+                g.suspend(x)
+            return None
         if isinstance(e, ast.NamedExpr):
             v = self.ev(e.value, fr)
             self.assign(e.target, v, fr)
@@ -1244,11 +1561,21 @@ class Evaluator:
         if ci.fq in self.intercept:
             return self.intercept[ci.fq](args, kwargs, self.uncertain)
         o = Obj(ci)
+        self.created.append(o)
         init = self.repo.lookup_method(ci, "__init__")
         if init is not None:
             self.call_function(init, args, kwargs, o)
-        elif any(c.is_dataclass for c in self.repo.mro(ci)):
+        elif any(c.is_dataclass for c in self.repo.mro(ci)) or self.is_namedtuple(ci):
             fields = [a for c in reversed(self.repo.mro(ci)) for a in c.ann_attrs]
+            if self.is_namedtuple(ci):
+                # every field has a value from the start (defaults from the class body), the record is a tuple of them
+                given = set(fields[: len(args)]) | set(kwargs)
+                for name in fields:
+                    if name not in given:
+                        src = next((c for c in self.repo.mro(ci) if name in c.class_attrs), None)
+                        if src is None:
+                            raise Raised("TypeError")
+                        o.attrs[name] = self._guarded(src.class_attrs[name], Frame(None, src.module, Env({})))
             if len(args) > len(fields):
                 raise Raised("TypeError")
             for name, v in zip(fields, args):
@@ -1265,6 +1592,16 @@ class Evaluator:
         elif args or kwargs:
             raise Raised("TypeError")
         return o
+
+    def is_namedtuple(self, ci: ClassInfo) -> bool:
+        return bool(self.repo.external_bases(ci) & {"NamedTuple", "typing.NamedTuple"})
+
+    def record_fields(self, o: Obj) -> list | None:
+        """The field values of a NamedTuple instance, in order (None for any other object)."""
+        if not self.is_namedtuple(o.cls):
+            return None
+        fields = [a for c in reversed(self.repo.mro(o.cls)) for a in c.ann_attrs]
+        return [o.attrs.get(f, POISON) for f in fields]
 
     def _lib_call(self, name: str, args: list, kwargs: dict):
         if name in self.lib_models:
@@ -1357,7 +1694,7 @@ class Evaluator:
             for x in cs:
                 if isinstance(x, type):
                     if isinstance(v, Obj):
-                        res = res or (x is object)
+                        res = res or (x is object) or (x is tuple and self.is_namedtuple(v.cls))
                     elif _is_plain(v) or isinstance(v, BaseException):
                         tgt = PurePosixPath if x is PurePosixPath else x
                         res = res or isinstance(v, tgt)
